@@ -36,7 +36,7 @@ def gates(c, tier):
             if c.get(f"cell:{k}:{ic}", 0) == 0:
                 out.append(f"no {k} with id class {ic}")
     for k in ("search-with>=3-results-before-done", "duplicate-final-response", "request-type-delivered", "batched-delivery", "chunked-delivery",
-              "accepted-response", "rejected-response", "ids-checked", "response-with-paged-control"):
+              "accepted-response", "rejected-response", "ids-checked", "response-with-paged-control", "long-lived-client"):
         if c.get(k, 0) == 0:
             out.append(f"never observed {k}")
     return out[:12]
@@ -91,7 +91,18 @@ def run_shard(ctx: Ctx, acc: Acc):
         maxconc = 0
         rejected = False
         pending_tail = b""
-        for _ in range(r.choice([5, 10, 20, 40, 60])):
+        if i % 50 == 7:
+            acc.count("long-lived-client")
+            for _k in range(258 + i % 5):
+                a0 = ("extended", "1.2.3", None, None)
+                steps.append(a0)
+                bad = drv.step(a0) or bad
+                a1 = ("receive", rfc4511.encode(("ExtendedResponse", drv.model.last_id, ((0, "", "", None), None, None), ())))
+                steps.append(a1)
+                bad = drv.step(a1) or bad
+                if bad:
+                    break
+        for _ in range(r.choice([5, 10, 20, 40, 60]) if not bad else 0):
             x = r.random()
             if pending_tail:
                 a = ("receive", pending_tail)
